@@ -24,7 +24,8 @@ RULE = ('(stabilizer group, ordered basis, sign pattern, subsystem, input format
 ASSUMPTIONS = ['numpy eigvalsh / kron / trace on matrices up to 32x32 are correct (root oracle); entropies of stabilizer '
                'states are integers, compared with tolerance 1e-6',
                'bounded to N<=3 completely (quick) and N=4 (thorough: all lists with L<=3, all 2295 Lagrangian '
-               'subspaces with every 16th of their 20160 ordered bases); torch leg N<=2 (thorough N<=3)',
+               'subspaces with every 24th of their 20160 ordered bases); torch leg N<=2 (thorough N<=3) complete, plus a capped '
+               'N=4 torch leg (one / a few ordered bases per subspace) because N=4 is the smallest size where a real matrix rank differs from the GF(2) rank',
                'entropy() reads only the active stabilizer strings; standby rows / destabilizers are completed to a '
                'valid tableau by the check (verified against the tableau invariant for every state built)']
 
@@ -314,7 +315,7 @@ def _state_entropy_ref(st, N, A):
 def fn_groups(items):
     """item = [N, canonical basis (string indices), stride, offset, lite]: every ordered basis of the
     group whose enumeration index = offset mod stride; lite=1 -> formats {list, boolmask}, one sign
-    pattern, local-Clifford check on every 24th basis."""
+    pattern, local-Clifford check on every 24th selected basis."""
     n = nt = 0
     viol = []
     keys = set()
@@ -332,9 +333,11 @@ def fn_groups(items):
         fmts = ('list', 'boolmask') if lite else FORMATS
         gate_stride = 24 if lite else 1
         per_sub = [set() for _ in subs]          # library values over all bases (generator independence)
+        nsel = -1
         for bi, lst in enumerate(ordered_bases(basis)):
             if bi % stride != off:
                 continue
+            nsel += 1
             for sgi, signs in enumerate(sign_sets(N, L, lite, lst)):
                 gs, ps, _ = build(N, lst, signs)
                 st = lib.ST(gs, ps, r)
@@ -385,7 +388,7 @@ def fn_groups(items):
                 if np.array(st.gs).tobytes() != g0 or np.array(st.ps).tobytes() != p0 or int(st.r) != r:
                     acc.add('C08/entropy/mutates-state', '%s: entropy() changed the tableau' % _desc(N, lst, signs, r))
                 # invariance under Clifford gates acting entirely inside / outside the region
-                if sgi == 0 and bi % gate_stride == 0:
+                if sgi == 0 and nsel % gate_stride == 0:
                     for si, A in enumerate(subs):
                         fmt = 'list' if A else 'boolmask'
                         before = libval.get((si, fmt))
@@ -686,10 +689,10 @@ def legs(tier):
         out.append(Leg('lists_N4_L0123', fn_groups, it, chunk=8, src_states=nlists(n4), timeout=3000,
                        bound='N=4: all isotropic subspaces of dimension <=3 (%d), ALL %d ordered lists x 1 sign pattern x 16 subsystems x formats {list, boolmask}; '
                              'local gates on every 24th ordered basis' % (len(it), nlists(n4))))
-        it = [[4, list(b), 16, 0, 1] for b in groups(4, 4)]
+        it = [[4, list(b), 24, 0, 1] for b in groups(4, 4)]
         out.append(Leg('lists_N4_L4', fn_groups, it, chunk=2, exhaustive=False, supplementary=True, timeout=3000,
-                       src_states=len(it) * GL_ORDER[4] // 16,
-                       bound='N=4 pure: all 2295 Lagrangian subspaces x every 16th of the 20160 ordered bases each (capped: 1260 per subspace, 2.89 M lists) x 16 subsystems x {list, boolmask}'))
+                       src_states=len(it) * GL_ORDER[4] // 24,
+                       bound='N=4 pure: all 2295 Lagrangian subspaces x every 24th of the 20160 ordered bases each (capped: 840 per subspace, 1.93 M lists) x 16 subsystems x {list, boolmask}'))
     tN = [(1, (0, 1)), (2, (0, 1, 2))] + ([(3, (0, 1, 2, 3))] if tier != 'quick' else [])
     it = [[N, list(b), 1, 0] for N, Ls in tN for L in Ls for b in groups(N, L)]
     out.append(Leg('torch_lists', fn_torch, it, chunk=2, src_states=nlists(tN),
